@@ -971,6 +971,8 @@ class StmtMixin:
                 for e in self.exec_block(a, s.body):
                     if e.flow in ('normal', 'continue'):
                         e.flow = 'normal'
+                        for h in spec.hints:
+                            self.eval_contract_expr(e, h, None, self.pre_state, want_bool=False)
                         e.env[idx_name] = SV(TInt, i.t + 1)
                         if src.unchanged is not None:
                             self.oblige(e, src.unchanged(e), 'safety', label + ':iterated-unchanged', node=s,
